@@ -77,7 +77,7 @@ type scaleCase struct {
 }
 
 func recC18() *vkit.Recorder {
-	r := vkit.Rec("C18", "exploration", "client-go fake clientset driven through the public NewReplicasManager(...).Replicas(): (1) EXHAUSTIVE grid old in 0..6(10) x new in 0..6(10) x claim templates in 0..2 x delete flag, each with claims of another StatefulSet and of ordinals beyond 'old' present; oracle on the objects left in the clientset and the recorded actions; the same grid with the StatefulSet update rejected by the API server (no claim may go); rapid sequences of scale requests on ONE manager interleaved with outside scale changes; (2) rapid over pod list permutations (up to 101 pods) x readiness patterns x several StatefulSets incl. one mid rolling update; oracle on the Shard list; non-trivial = old != new with >=1 template, or a non-identity pod permutation; distinct = digest of the case")
+	r := vkit.Rec("C18", "exploration", "unit TestC18Coord: real coordinator for 1-4 cycles on the real kubernetes ReplicasManager, 1-3 StatefulSets whose state per cycle is settled / rolling update / not ready, every shard request and StatefulSet/PVC write attributed to a cycle (non-trivial there = a rolling update that starts after a coordinated cycle); pod lists also in lexicographic name order; client-go fake clientset driven through the public NewReplicasManager(...).Replicas(): (1) EXHAUSTIVE grid old in 0..6(10) x new in 0..6(10) x claim templates in 0..2 x delete flag, each with claims of another StatefulSet and of ordinals beyond 'old' present; oracle on the objects left in the clientset and the recorded actions; the same grid with the StatefulSet update rejected by the API server (no claim may go); rapid sequences of scale requests on ONE manager interleaved with outside scale changes; (2) rapid over pod list permutations (up to 101 pods) x readiness patterns x several StatefulSets incl. one mid rolling update; oracle on the Shard list; non-trivial = old != new with >=1 template, or a non-identity pod permutation; distinct = digest of the case")
 	r.Assume("a pod has an IP exactly when it is ready (both readings of 'readiness' agree); pods set-0..set-(k-1) exist as a prefix of the ordinals (OrderedReady pod management)")
 	return r
 }
@@ -366,11 +366,27 @@ func TestC18List(t *testing.T) {
 	rapid.Check(t, func(t *rapid.T) {
 		c := &listCase{Replicas: rapid.SampledFrom([]int{0, 1, 2, 3, 5, 7, 10, 11, 12, 15, 23, 101}).Draw(t, "replicas")}
 		k := rapid.IntRange(0, c.Replicas).Draw(t, "pods")
+		if rapid.Bool().Draw(t, "allPodsListed") {
+			k = c.Replicas
+		}
 		ords := make([]int, k)
 		for i := range ords {
 			ords[i] = i
 		}
 		perm := rapid.Permutation(ords).Draw(t, "order")
+		orderKind := "shuffled"
+		switch rapid.IntRange(0, 5).Draw(t, "orderKind") {
+		case 0:
+			// what an API server does: sorted by name, which is not ordinal order from 11 pods on
+			orderKind = "by-name"
+			sort.Slice(perm, func(i, j int) bool { return fmt.Sprint(perm[i]) < fmt.Sprint(perm[j]) })
+		case 1:
+			orderKind = "by-name-reversed"
+			sort.Slice(perm, func(i, j int) bool { return fmt.Sprint(perm[i]) > fmt.Sprint(perm[j]) })
+		case 2:
+			orderKind = "by-ordinal"
+			sort.Ints(perm)
+		}
 		identity := true
 		for i, o := range perm {
 			if i != o {
@@ -386,7 +402,10 @@ func TestC18List(t *testing.T) {
 		c.Rolling = rapid.Bool().Draw(t, "rolling")
 		vs := rec.Filter(runList(c))
 		b, _ := json.Marshal(c)
-		cls := []string{"list"}
+		cls := []string{"list", "list-order/" + orderKind}
+		if orderKind == "by-name" && k >= 11 {
+			cls = append(cls, "list-order/by-name-with-11-or-more-pods")
+		}
 		if c.Rolling && c.Others > 0 {
 			cls = append(cls, "rolling-update-present")
 		}
@@ -411,6 +430,16 @@ func TestReplayC18(t *testing.T) {
 			if json.Unmarshal(r.Case, &c) == nil {
 				if bad := rec.Filter(runScale(c)); len(bad) > 0 {
 					fails = append(fails, r.Note+": "+bad[0].Key)
+				}
+			}
+		case "TestC18Coord":
+			var c coordCase
+			if json.Unmarshal(r.Case, &c) == nil {
+				all, _ := runCoord(&c)
+				for _, v := range rec.Filter(all) {
+					if strings.HasPrefix(v.Key, "C18/") {
+						fails = append(fails, r.Note+": "+v.Key)
+					}
 				}
 			}
 		case "TestC18List":
